@@ -206,8 +206,15 @@ def parse(
                 )
 
             else:
+                # if-branches run in the enclosing structure; list items are
+                # separate functions, so they do not inherit a loop or lambda
+                branch_parent = (
+                    structure_cls
+                    if structure_cls == structure.ListLiteral
+                    else parent or structure_cls
+                )
                 branches = list(
-                    map(lambda x: parse(x, parent or structure_cls), branches)
+                    map(lambda x: parse(x, branch_parent), branches)
                 )
                 structures.append(structure_cls(*branches))
 
